@@ -143,11 +143,11 @@ def distance(setmap, p1, p2):
             total += count
     if total == 0:
         return float("nan")
-    d = 0
+    different = 0
     for pset, count in setmap.items():
         if (p1 in pset) ^ (p2 in pset):
-            d += count / float(total)
-    return d
+            different += count
+    return different / float(total)
 
 
 def divergence(setmap):
@@ -155,7 +155,7 @@ def divergence(setmap):
     Compute code divergence as defined by Harrell and Kitson
     i.e. average of pair-wise distances between platform sets
     """
-    platforms = extract_platforms(setmap)
+    platforms = sorted(extract_platforms(setmap))
 
     d = 0
     npairs = 0
